@@ -268,24 +268,34 @@ def shard(task):
 
         import py7zr
 
+        def timed_open(img, rounds):
+            best = None
+            for _ in range(rounds):
+                t0 = time.perf_counter()
+                try:
+                    z = py7zr.SevenZipFile(io.BytesIO(img))
+                    z.getnames()
+                    z.close()
+                except Exception:
+                    pass
+                dt = time.perf_counter() - t0
+                best = dt if best is None else min(best, dt)
+            return best
+
+        def superlinear(ts):
+            return ts[2] > 0.5 and ts[1] / max(ts[0], 0.005) > 2.8 and ts[2] / max(ts[1], 0.005) > 2.8
+
         for name, n0 in arg:
             times, sizes = [], []
             try:
-                for n in (n0, 2 * n0, 4 * n0):
-                    img = family(name, n)
-                    sizes.append(len(img))
-                    best = None
-                    for _ in range(3):
-                        t0 = time.perf_counter()
-                        try:
-                            z = py7zr.SevenZipFile(io.BytesIO(img))
-                            z.getnames()
-                            z.close()
-                        except Exception:
-                            pass
-                        dt = time.perf_counter() - t0
-                        best = dt if best is None else min(best, dt)
-                    times.append(best)
+                imgs = [family(name, n) for n in (n0, 2 * n0, 4 * n0)]
+                sizes = [len(i) for i in imgs]
+                times = [timed_open(i, 3) for i in imgs]
+                if superlinear(times):
+                    # timing is noisy on a busy machine: a suspicion must survive a second, longer measurement
+                    again = [timed_open(i, 5) for i in imgs]
+                    times = [min(a, b) for a, b in zip(times, again)]
+                    sh.count("scale_series_remeasured")
             except Exception as ex:
                 sh.count("scale_family_not_buildable")
                 sh.note("scale_build_errors", f"{name}: {type(ex).__name__}: {str(ex)[:60]}")
@@ -294,7 +304,7 @@ def shard(task):
             sh.count("calls", 6)
             r1, r2 = times[1] / max(times[0], 0.005), times[2] / max(times[1], 0.005)
             # linear work doubles when the input doubles; both doublings costing more than 2.8x (and a measurable total) is super-linear
-            if (times[2] > 0.5 and r1 > 2.8 and r2 > 2.8) or times[2] > budget(sizes[2]):
+            if superlinear(times) or times[2] > budget(sizes[2]):
                 sh.violation({"symptom": "superlinear-open", "input": "scale", "family": name},
                              f"{name}: open()+getnames() takes {times[0]:.2f} s / {times[1]:.2f} s / {times[2]:.2f} s for inputs of {sizes[0]} / {sizes[1]} / {sizes[2]} bytes (n = {n0}, {2 * n0}, {4 * n0}): x{r1:.1f} and x{r2:.1f} per doubling",
                              {"kind": "scale", "family": name, "n0": n0, "tier": tier, "maxlen": maxlen})
